@@ -177,6 +177,13 @@ def run(ctx):
     ctx.assumptions += ["supported horizon: NMONTHS a multiple of 12 with 24 <= NMONTHS <= 120 (grass blocks), >= 42 with "
                         "greenhouses; shut-off durations <= NMONTHS; fish table at least NMONTHS long",
                         "non-negative baselines, ratios, seasonality; wastes in [0,100]; stored-food asserts hold"]
+    ctx.notes["explanation"] = (
+        "All clauses are proved of the model and tied to the code, except 'shifted by the configured start-up delay' for "
+        "methane SCP: the code prepends the delay list twice (pinned by tests/test_methane_scp.py); the theorem that is "
+        "proved says 2 x delay (c08_scp_two_delays), the property's reading is refuted (c08_scp_delay_refuted) and the "
+        "audit reports it under key " + SCP_KEY + ". The correspondence accepts either reading of the SCP delay, so a "
+        "repair of that defect does not break the tie. Seaweed growth factors are returned for all 120 table columns "
+        "whatever the horizon (key " + GROWTH_KEY + "); the optimiser reads the first NMONTHS.")
     ctx.check_props()
     bok, bad, out = ctx.build(["Model/SeriesCheck.vo"])
     if not bok:
@@ -274,7 +281,7 @@ def audit(ctx):
     nsyn, nreal = (40, 8) if ctx.quick else (800, 330)
     cases = [gen_synthetic(rng) for _ in range(nsyn)]
     isos = countries()
-    chosen = ["WOR"] + rng.sample(isos, nreal - 1) if ctx.quick else (isos + ["WOR"] * 2) * 2
+    chosen = ["WOR"] + rng.sample(sorted(c09.SPECIAL), 2) + rng.sample(isos, nreal - 3) if ctx.quick else (isos + ["WOR"] * 2) * 2
     cases += [gen_real(rng, iso) for iso in chosen[:nreal]]
     res = ctx.run_impl("c08_audit", {"cases": cases})
     ctx.notes["audit"] = {k: v for k, v in res.items() if k != "failures"}
